@@ -41,6 +41,7 @@ class Monitor:
         self.obs = 0
         self.published_ever = 0
         self.index_missing_startup = False   # a shard started with segment directories but no segments.idx
+        self.index_seen = set()              # shards for which some observation decoded a segments.idx
 
     def v(self, rule, extra, detail):
         self.res.violation(rule, dict(self.sig, after_index_missing_startup=self.index_missing_startup, **extra), detail, self.witness)
@@ -51,7 +52,13 @@ class Monitor:
             dirs = {f["p"] for f in sh["files"] if f.get("d") and f["p"].isdigit()}
             nonempty = {d for d in dirs if seg_files(sh["files"], d)}
             if dirs and sh["index"] is None:
-                self.index_missing_startup = True
+                if sh["shard"] in self.index_seen:
+                    # the index is replaced by one rename: a shard that had an index keeps having one, whatever the crash point
+                    self.v("segment_index_vanished", {"where_kind": "startup"},
+                           f"shard {sh['shard']}: segments.idx existed earlier in this history and is missing at start-up "
+                           f"(directories {sorted(dirs)[:8]}, files {sorted(f['p'] for f in sh['files'] if '/' not in f['p'])[:6]})")
+                else:
+                    self.index_missing_startup = True
             self.leftover[sh["shard"]] = nonempty - named
             # what the restarted process names must be complete (checked by observe) and unchanged since before
         self.observe(snap, "startup")
@@ -66,6 +73,8 @@ class Monitor:
         for sh in snap:
             s = sh["shard"]
             idx = sh["index"] if isinstance(sh["index"], list) else []
+            if isinstance(sh["index"], list):
+                self.index_seen.add(s)
             if isinstance(sh["index"], dict) and "error" in sh["index"]:
                 self.v("index_unreadable", {"where_kind": where.split(":")[0]}, f"shard {s} at {where}: {sh['index']}")
             idx_map = {"%05d" % e["id"]: e["uids"] for e in idx}
